@@ -36,7 +36,7 @@ def one(m, repo, tests):
         cd = tempfile.mkdtemp(prefix="rpcverif-sweepc-")
         try:
             for f in os.listdir(d):
-                if not f.endswith("_test.go"):
+                if not f.endswith("_test.go") and os.path.isfile(os.path.join(d, f)):
                     shutil.copy(os.path.join(d, f), cd)
             c = subprocess.run([os.path.join(BIN, "rpcverif"), "sweep", "-repo", cd], env=ENV, capture_output=True, text=True, timeout=300)
             try:
